@@ -126,7 +126,7 @@ func main() {
 		wg.Add(1)
 		go func(w int) {
 			defer wg.Done()
-			c.RunWorker(fmt.Sprintf("inproc-%d-%d", w, nw), time.Duration(c.Pick(4, 35))*time.Minute)
+			c.RunWorker(fmt.Sprintf("inproc-%d-%d", w, nw), time.Duration(c.Pick(10, 35))*time.Minute)
 		}(w)
 	}
 	wg.Wait()
